@@ -1,9 +1,9 @@
 CONSTANTS
   ProgOf <- FamProgOf
   MaxSteps = 30000
-  HistLen = 3
-  NRandom = 5000
-  RandLen = 20
+  HistLen = 2
+  NRandom = 4000
+  RandLen = 12
   EmitOn = TRUE
 INIT Init
 NEXT Next
